@@ -3,6 +3,13 @@
 HOOK_COMMITS = ["ed224dc", "bc3b859"]
 
 ENGINES = [
+    {"name": "stream", "path": "specs/StreamFraming.tla specs/StreamMC.tla specs/StreamTrace.tla lib/engines/stream.py "
+     "harness/src/stream.rs",
+     "serves_properties": ["C08", "C06"],
+     "kind_free_text": "TLA+ A-spec of stream tiling and of the valid delimited records (on top of the HCOBS format "
+     "definition) + transcription of StreamChunker::pump and StreamReader::next_record_bytes; TLC design MC over all "
+     "streams/blocks/judge parameters within bounds; the same space and seeded faulty streams executed on the real code "
+     "with scripted readers; TLC trace validation"},
     {"name": "codec", "path": "specs/HcobsFormat.tla specs/HcobsCodec.tla specs/HcobsMC.tla specs/HcobsTrace.tla "
      "lib/engines/codec.py harness/src/codec.rs",
      "serves_properties": ["C01", "C02", "C07", "C09"],
@@ -23,7 +30,36 @@ CODEC_NOTE = ("Bounded: exhaustive only for inputs <= 6 (encoder, alphabet {FE,F
               "call the same EncoderState/DecoderState code with other limits; the production runs go through the real "
               "Encoder/Decoder glue), TLC's evaluation of the format definition, the harness's recording.")
 
+STREAM_NOTE = ("Bounded: exhaustive for streams <= 5 (chunker) / <= 4 (reader) over {FE,FD,0,1,2,'a'} x block sizes 0..4 "
+               "in the quick tier (6 / 5 in thorough), sampled beyond (record-rich logs, truncation of a 3-record log at every "
+               "byte, corruption, garbage, sentinel runs, FE/FD fragments; block sizes up to the 512 KiB default; short-read / "
+               "EINTR schedules; prepared arena fill states for the chunker). Hard I/O errors inside the chunker are outside "
+               "the property (covered for read_n by C17). Judges other than chunk_judge are not driven.")
+
 CHECKS = {
+    "C08": {
+        "engine": "stream",
+        "technique": "TLA+ spec + TLC model checking of the transcribed chunker; enumerated-configuration replay and TLC trace validation of real pump() chunks",
+        "text": "StreamFraming.tla states tiling as a TLA+ predicate (chunks concatenate to the stream at their positions, offsets are "
+                "absolute ends, Data non-empty / stuff-free / no FE|FD straddle, Eof last and only at the real end). TLC checks the "
+                "transcribed pump against it for every stream within bounds and block sizes 0..4 (finding F1 is the counterexample "
+                "with the pre-fix constant). The same configuration space and seeded faulty streams are pumped through the real "
+                "StreamChunker with scripted readers and prepared arena states; TLC validates every recorded chunk sequence.",
+        "design_ref": "DESIGN.md section 6, C08/C06",
+        "note": STREAM_NOTE,
+    },
+    "C06": {
+        "engine": "stream",
+        "technique": "TLA+ spec + TLC model checking of the transcribed reader; enumerated-configuration replay and TLC trace validation of real StreamReader records",
+        "text": "Records(stream, maxSize, limit) is defined in TLA+ on top of the pure HCOBS format (maximal stuff-free segments, "
+                "well-formed, size limit, stop at the limit offset). TLC checks the transcribed next_record_bytes loop (with the "
+                "transcribed decoder and chunker) returns exactly Records for every stream/block/judge parameter within bounds; "
+                "the same space plus record-rich logs truncated at every byte, corrupted, with extra delimiters, are read through "
+                "the real StreamReader under short-read/EINTR schedules; TLC compares the returned (bytes, range) list with Records, "
+                "panics and errors are violations, last_sentinel_offset is checked for monotonicity and for pointing at FE FD.",
+        "design_ref": "DESIGN.md section 6, C08/C06",
+        "note": STREAM_NOTE,
+    },
     "C01": {
         "engine": "codec",
         "technique": "TLA+ format spec + TLC model checking of the transcribed codec; edge-cover replay (hook H3) and TLC trace validation of real Encoder->Decoder round trips",
